@@ -84,9 +84,10 @@ type lfSection struct {
 	Line    int    `json:"line"`
 }
 type lfHandout struct {
-	Kind  string `json:"kind"` // whole elem addr
-	Field int    `json:"field"`
-	Line  int    `json:"line"`
+	Kind   string `json:"kind"` // whole elem addr
+	Field  int    `json:"field"`
+	Escape bool   `json:"escape"` // not returned, but used by the method itself after the lock was released
+	Line   int    `json:"line"`
 }
 type lfMethod struct {
 	Name     string      `json:"name"`
@@ -244,23 +245,24 @@ type lfState struct {
 }
 
 type lfAn struct {
-	pkg      *lfPkg
-	t        *lfType
-	tIndex   int
-	all      []*lfType
-	typeIdx  map[string]int // "dir:Type" -> index
-	impls    map[string]string
-	dir      string
-	recv     string
-	m        *lfMethod
-	methods  map[string]int // method name -> index (this type)
-	fieldIdx map[string]int
-	derived  map[string]int       // local -> field index it was derived from (-1 unknown receiver state)
-	taint    map[string]lfHandout // local -> alias it holds
-	fresh    map[string]bool      // locals bound to &T{..}
-	shared   map[string]bool      // names of shared types
-	closure  int
-	err      error
+	pkg       *lfPkg
+	t         *lfType
+	tIndex    int
+	all       []*lfType
+	typeIdx   map[string]int // "dir:Type" -> index
+	impls     map[string]string
+	dir       string
+	recv      string
+	m         *lfMethod
+	methods   map[string]int // method name -> index (this type)
+	fieldIdx  map[string]int
+	derived   map[string]int         // local -> field index it was derived from (-1 unknown receiver state)
+	taint     map[string][]lfHandout // local -> aliases of receiver memory it holds
+	taintHeld map[string]string      // lock state when the local received its aliases
+	fresh     map[string]bool        // locals bound to &T{..}
+	shared    map[string]bool        // names of shared types
+	closure   int
+	err       error
 }
 
 func (a *lfAn) failf(n ast.Node, format string, args ...interface{}) {
@@ -484,7 +486,17 @@ func (a *lfAn) expr(e ast.Expr, st *lfState) {
 		for _, el := range x.Elts {
 			a.expr(el, st)
 		}
-	case *ast.Ident, *ast.BasicLit:
+	case *ast.Ident:
+		// an alias of guarded memory obtained inside a critical section and used after the lock was released
+		// escapes the section: an unsynchronised hand-out to the method's own later code
+		if hs := a.taint[x.Name]; len(hs) > 0 && st.held == "n" && a.taintHeld[x.Name] != "n" && a.taintHeld[x.Name] != "" {
+			for _, h := range hs {
+				h.Line = a.line(x)
+				h.Escape = true
+				a.m.Handouts = append(a.m.Handouts, h)
+			}
+		}
+	case *ast.BasicLit:
 	case *ast.ArrayType, *ast.MapType, *ast.FuncType, *ast.InterfaceType, *ast.StructType, *ast.ChanType:
 	default:
 		a.failf(e, "unsupported expression %T", e)
@@ -649,19 +661,23 @@ func (a *lfAn) subIndexReads(e ast.Expr, st *lfState) {
 	}
 }
 
-// aliasOf: does the expression denote an alias of receiver memory that can be handed out?
-func (a *lfAn) aliasOf(e ast.Expr) (lfHandout, bool) {
+// aliasesOf: the aliases of receiver memory the expression denotes (what would be handed out if it were
+// returned). Direct forms only: recv.f (reference kinds), recv.f[i], recv.f[a:b], &recv.f.., a tainted local,
+// and append(..)/composite literals containing such values. A selector on a local drops the taint.
+func (a *lfAn) aliasesOf(e ast.Expr) []lfHandout {
 	switch x := e.(type) {
 	case *ast.ParenExpr:
-		return a.aliasOf(x.X)
+		return a.aliasesOf(x.X)
 	case *ast.Ident:
-		h, ok := a.taint[x.Name]
-		return h, ok
+		return a.taint[x.Name]
 	case *ast.UnaryExpr:
 		if x.Op == token.AND {
+			if cl, ok := x.X.(*ast.CompositeLit); ok {
+				return a.aliasesOf(cl)
+			}
 			f, _, kind := a.rootOf(x.X)
 			if kind == "field" {
-				return lfHandout{Kind: "addr", Field: f, Line: a.line(e)}, true
+				return []lfHandout{{Kind: "addr", Field: f, Line: a.line(e)}}
 			}
 		}
 	case *ast.SelectorExpr:
@@ -669,35 +685,57 @@ func (a *lfAn) aliasOf(e ast.Expr) (lfHandout, bool) {
 			if fi, ok := a.fieldIdx[x.Sel.Name]; ok {
 				switch a.t.Fields[fi].Kind {
 				case "ptr", "slice", "map", "iface":
-					return lfHandout{Kind: "whole", Field: fi, Line: a.line(e)}, true
+					return []lfHandout{{Kind: "whole", Field: fi, Line: a.line(e)}}
 				}
 			}
 		}
 	case *ast.SliceExpr:
 		if s, ok := x.X.(*ast.SelectorExpr); ok && a.isRecv(s.X) {
 			if fi, ok := a.fieldIdx[s.Sel.Name]; ok {
-				return lfHandout{Kind: "whole", Field: fi, Line: a.line(e)}, true
+				return []lfHandout{{Kind: "whole", Field: fi, Line: a.line(e)}}
 			}
 		}
+		return a.aliasesOf(x.X)
 	case *ast.IndexExpr:
 		if s, ok := x.X.(*ast.SelectorExpr); ok && a.isRecv(s.X) {
 			if fi, ok := a.fieldIdx[s.Sel.Name]; ok {
-				return lfHandout{Kind: "elem", Field: fi, Line: a.line(e)}, true
+				return []lfHandout{{Kind: "elem", Field: fi, Line: a.line(e)}}
 			}
 		}
+		return a.aliasesOf(x.X) // an element of a tainted local collection
+	case *ast.CompositeLit:
+		var out []lfHandout
+		for _, el := range x.Elts {
+			if kv, ok := el.(*ast.KeyValueExpr); ok {
+				out = append(out, a.aliasesOf(kv.Value)...)
+			} else {
+				out = append(out, a.aliasesOf(el)...)
+			}
+		}
+		return out
 	case *ast.CallExpr:
 		if id, ok := x.Fun.(*ast.Ident); ok && id.Name == "append" {
+			var out []lfHandout
 			for _, arg := range x.Args {
-				if h, ok := a.aliasOf(arg); ok {
-					if h.Kind == "whole" && arg != x.Args[0] {
-						h.Kind = "whole"
-					}
-					return h, true
-				}
+				out = append(out, a.aliasesOf(arg)...)
 			}
+			return out
 		}
 	}
-	return lfHandout{}, false
+	return nil
+}
+
+func dedupHandouts(hs []lfHandout) []lfHandout {
+	seen := map[[2]interface{}]bool{}
+	var out []lfHandout
+	for _, h := range hs {
+		k := [2]interface{}{h.Kind, h.Field}
+		if !seen[k] {
+			seen[k] = true
+			out = append(out, h)
+		}
+	}
+	return out
 }
 
 func (a *lfAn) assign(lhs []ast.Expr, rhs []ast.Expr, tok token.Token, st *lfState, n ast.Node) {
@@ -733,10 +771,14 @@ func (a *lfAn) assign(lhs []ast.Expr, rhs []ast.Expr, tok token.Token, st *lfSta
 			} else if tok == token.DEFINE {
 				delete(a.derived, id.Name)
 			}
-			if h, ok := a.aliasOf(r); ok && (i == 0 || len(rhs) == len(lhs)) {
-				a.taint[id.Name] = h
+			if hs := dedupHandouts(a.aliasesOf(r)); len(hs) > 0 && (i == 0 || len(rhs) == len(lhs)) {
+				a.taint[id.Name] = hs
+				if old, ok := a.taintHeld[id.Name]; !ok || old == "n" || tok == token.DEFINE {
+					a.taintHeld[id.Name] = st.held
+				}
 			} else if tok == token.DEFINE || tok == token.ASSIGN {
 				delete(a.taint, id.Name)
+				delete(a.taintHeld, id.Name)
 			}
 			continue
 		}
@@ -910,8 +952,9 @@ func (a *lfAn) stmt(s ast.Stmt, st lfState) lfState {
 			if _, isCall := r.(*ast.CallExpr); isCall && len(a.m.Calls) > before && a.m.Calls[before].Via == "self" {
 				a.m.Calls[before].Ret = true
 			}
-			if h, ok := a.aliasOf(r); ok {
+			for _, h := range a.aliasesOf(r) {
 				h.Line = a.line(r)
+				h.Escape = false
 				a.m.Handouts = append(a.m.Handouts, h)
 			}
 		}
@@ -942,11 +985,20 @@ func (a *lfAn) stmt(s ast.Stmt, st lfState) lfState {
 		for _, kv := range []ast.Expr{x.Key, x.Value} {
 			if id, ok := kv.(*ast.Ident); ok && id.Name != "_" {
 				delete(a.taint, id.Name)
+				delete(a.taintHeld, id.Name)
 				delete(a.derived, id.Name)
 				if kind == "field" || kind == "derived" {
 					a.derived[id.Name] = f
 					if kind == "field" && kv == x.Value {
-						a.taint[id.Name] = lfHandout{Kind: "elem", Field: f, Line: a.line(x)}
+						a.taint[id.Name] = []lfHandout{{Kind: "elem", Field: f, Line: a.line(x)}}
+						a.taintHeld[id.Name] = st.held
+					}
+				}
+				if kind == "local" || kind == "derived" {
+					// ranging over a tainted local collection: the element carries the collection's aliases
+					if rid, ok := x.X.(*ast.Ident); ok && kv == x.Value && len(a.taint[rid.Name]) > 0 {
+						a.taint[id.Name] = a.taint[rid.Name]
+						a.taintHeld[id.Name] = a.taintHeld[rid.Name]
 					}
 				}
 			} else if kv != nil && !ok {
@@ -1192,7 +1244,7 @@ func runLockFacts(repo, outDir string) error {
 			m.EndLine = j.pkg.fset.Position(fd.End()).Line
 			m.Sections, m.Acc, m.Calls, m.Handouts = []lfSection{}, []lfAccess{}, []lfCall{}, []lfHandout{}
 			a := &lfAn{pkg: j.pkg, t: t, tIndex: i, all: all, typeIdx: typeIdx, impls: j.tgt.impls, dir: j.tgt.dir, recv: recv, m: m,
-				methods: methods, fieldIdx: fieldIdx, derived: map[string]int{}, taint: map[string]lfHandout{}, fresh: map[string]bool{}, shared: shared}
+				methods: methods, fieldIdx: fieldIdx, derived: map[string]int{}, taint: map[string][]lfHandout{}, taintHeld: map[string]string{}, fresh: map[string]bool{}, shared: shared}
 			if fd.Body == nil {
 				return fmt.Errorf("%s.%s has no body", t.Name, m.Name)
 			}
@@ -1299,7 +1351,7 @@ func lfLean(all []*lfType) string {
 			}
 			b.WriteString("],\n      handouts := [")
 			for k, h := range m.Handouts {
-				fmt.Fprintf(&b, "{ kind := .%s, field := %d, line := %d }%s", h.Kind, h.Field, h.Line, sepi(k, len(m.Handouts)))
+				fmt.Fprintf(&b, "{ kind := .%s, field := %d, escape := %s, line := %d }%s", h.Kind, h.Field, lfBool(h.Escape), h.Line, sepi(k, len(m.Handouts)))
 			}
 			fmt.Fprintf(&b, "] }%s\n", sep(i, len(t.Methods)))
 		}
